@@ -311,12 +311,14 @@ class CollectingDependsOnEarlierEntries(Exception):
 SENTINEL = ("earlier entry",)
 
 
-def validate_both(unit, element, p):
+def validate_both(unit, element, p, rule_obj=None):
     """Returns (ff, craised, errs): ff = None or exception; craised = exception raised in collecting mode (or
     the marker above); errs = the entries appended to an empty list."""
     from metapype.eml import validate, rule
     def call(errs):
-        if element or unit == "@metadata":
+        if rule_obj is not None:
+            rule_obj.validate_rule(p, errs)          # a Rule object the caller keeps and reuses (rule.get_rule hands them out)
+        elif element or unit == "@metadata":
             validate.node(p, errs)
         else:
             rule.Rule(unit).validate_rule(p, errs)
